@@ -291,6 +291,16 @@ def one_case(ctx, index, want_model=True):
             nz += 1
             ctx.count('edges.first_%s' % ('pos' if v[4] > 0 else 'neg' if v[4] < 0 else 'zero'))
     ctx.count('events.grad_nonzero_edge', nz)
+    ctx.count('reuse.connected_events_reused', getattr(seq, '_gen_reused', 0))
+    tr = 0
+    for k, v in seq.grad_library.data.items():
+        cols = [v[3]] if seq.grad_library.type[k] == 'g' else list(v[1:])
+        tr += sum(1 for x in cols if int(x * 1e6) != round(x * 1e6))
+        if seq.grad_library.type[k] == 'g' and v[3] != 0:
+            ctx.count('timecols.grad_delay_nonzero')
+    tr += sum(1 for v in seq.adc_library.data.values() if int(v[2] * 1e6) != round(v[2] * 1e6) or int(v[1] * 1e9) != round(v[1] * 1e9))
+    tr += sum(1 for v in seq.trigger_library.data.values() if any(int(x * 1e6) != round(x * 1e6) for x in v[2:]))
+    ctx.count('timecols.truncation_differs_from_rounding', tr)
     ok = oracle(ctx, case, seq, s2, sysw)
     if index % 40 == 0:
         ctx.sample({'case': case, 'file_chars': len(text), 'oracle_ok': ok, 'head': text[:200]})
